@@ -41,7 +41,7 @@ FileDirs == {[abs |-> FALSE, segs |-> <<>>], [abs |-> FALSE, segs |-> <<".">>], 
 NoLay == LayerInit("scalar", <<>>, "absent", <<>>, "absent", FALSE)
 NoAux == [form |-> "", n |-> <<>>, v |-> <<>>, q |-> "", pads |-> <<0, 0, 0, 0, 0, 0>>,
           cwd |-> <<>>, d |-> [abs |-> FALSE, segs |-> <<>>], p |-> [abs |-> FALSE, segs |-> <<>>], nf |-> 0, no |-> 0,
-          argv |-> <<>>, pos |-> 0]
+          argv |-> <<>>, pos |-> 0, fa |-> <<"absent", "absent">>, ca |-> <<"absent", "absent">>]
 \* command lines of up to two occurrences of two other options, a value-less colour switch inserted at every position
 ArgItems == {[opt |-> o, val |-> v] : o \in {"o1", "o2"}, v \in {"v1", "v2"}}
 Argvs == UNION {[1..n -> ArgItems] : n \in 0..2}
@@ -95,13 +95,16 @@ PickPath   == ph = "start" /\ ph' = "path" /\ UNCHANGED <<txt, lay, hist, gh>>
                       aux' = [NoAux EXCEPT !.cwd = c, !.d = d, !.p = [abs |-> pa, segs |-> IF pa THEN <<"r">> \o ps ELSE ps]]
 PickCouple == ph = "start" /\ ph' = "couple" /\ UNCHANGED <<txt, lay, hist, gh>>
                 /\ \E nf \in 0..3, no \in 0..3 : aux' = [NoAux EXCEPT !.nf = nf, !.no = no]
+\* two keys that differ only in case (1: lower case, 2: mixed case), each assigned or not by the file and by -D
+PickKeys   == ph = "start" /\ ph' = "keys" /\ UNCHANGED <<txt, lay, hist, gh>>
+                /\ \E f \in [1..2 -> Assigns], c \in [1..2 -> Assigns] : aux' = [NoAux EXCEPT !.fa = f, !.ca = c]
 PickArgv   == ph = "start" /\ ph' = "argv" /\ UNCHANGED <<txt, lay, hist, gh>>
                 /\ \E a \in Argvs : \E k \in 1..(Len(a) + 1) : aux' = [NoAux EXCEPT !.argv = a, !.pos = k]
 PickHist   == ph = "start" /\ ph' = "hist" /\ hist' \in {HistInit(c) : c \in Histories} /\ UNCHANGED <<txt, lay, aux, gh>>
 StepHist   == ph = "hist" /\ ~HistDone(hist) /\ hist' = HistStep(hist) /\ UNCHANGED <<ph, txt, lay, aux, gh>>
 PickSeq    == ph \in {"gstr", "gword"} /\ ph' = "gseq" /\ gh' \in {GetInit(txt, c) : c \in GetSeqs(txt)} /\ UNCHANGED <<txt, lay, aux, hist>>
 StepSeq    == ph = "gseq" /\ ~GetDone(gh) /\ gh' = GetStep(gh) /\ UNCHANGED <<ph, txt, lay, aux, hist>>
-Next == PickArgv \/ PickSeq \/ StepSeq \/ PickHist \/ StepHist \/ StartDefine \/ GrowDefine \/ StartGetter \/ GrowGetter \/ PickWord \/ PickLayer \/ StepLayer \/ PickForm \/ PickRender \/ PickPath \/ PickCouple
+Next == PickKeys \/ PickArgv \/ PickSeq \/ StepSeq \/ PickHist \/ StepHist \/ StartDefine \/ GrowDefine \/ StartGetter \/ GrowGetter \/ PickWord \/ PickLayer \/ StepLayer \/ PickForm \/ PickRender \/ PickPath \/ PickCouple
 Spec == Init /\ [][Next]_vars
 
 \* ---------------------------------------------------------------- layering laws
@@ -158,6 +161,10 @@ CoupleLaw ==
    ph = "couple" => LET r == Couple(aux.nf, aux.no) IN
                     /\ Len(r) = IF aux.nf = 0 THEN aux.no ELSE aux.nf
                     /\ \A k \in DOMAIN r : k <= aux.no => r[k] = [auto |-> FALSE, ix |-> k]    \* named ones keep place and order
+\* what one key resolves to does not depend on what the key of the other case is assigned
+KeysAreCaseSensitive ==
+   ph = "keys" => \A k \in 1..2 : \A g \in [1..2 -> Assigns], h \in [1..2 -> Assigns] :
+                     (g[k] = aux.fa[k] /\ h[k] = aux.ca[k]) => KeysResolve(g, h)[k] = KeysResolve(aux.fa, aux.ca)[k]
 \* a value-less colour switch sets the colour and leaves every other option of the command line as it was
 ColourSwitchIsLocal ==
    ph = "argv" => LET with == InsertAt(aux.argv, aux.pos, BareColor) IN
@@ -186,6 +193,7 @@ Emit ==
          PrintT(<<"CASE", ToJson([k |-> "hist", okind |-> hist.cons[1].kind, cons |-> hist.cons])>>)
    /\ ph = "gseq" /\ gh.k = 1 => PrintT(<<"CASE", ToJson([k |-> "gseq", text |-> txt, calls |-> gh.calls])>>)
    /\ ph = "path"   => PrintT(<<"CASE", ToJson([k |-> "path", cwd |-> aux.cwd, d |-> aux.d, p |-> aux.p])>>)
+   /\ ph = "keys"   => PrintT(<<"CASE", ToJson([k |-> "keys", fa |-> aux.fa, ca |-> aux.ca])>>)
    /\ ph = "argv"   => PrintT(<<"CASE", ToJson([k |-> "argv", argv |-> aux.argv, pos |-> aux.pos,
                                                    o1 |-> CmdOf(aux.argv, "o1"), o2 |-> CmdOf(aux.argv, "o2")])>>)
    /\ ph = "couple" => PrintT(<<"CASE", ToJson([k |-> "couple", nf |-> aux.nf, no |-> aux.no])>>)
